@@ -112,8 +112,8 @@ def gen():
                         ("clamp_within", "clamp() of any finite color reports within bounds", "assert!(c.clamp().is_within_bounds());"),
                         ("clamp_identity", "clamp() leaves a within-bounds color unchanged",
                          f"kani::assume(c.is_within_bounds()); let k = c.clamp(); assert!({same(T, 'k', 'c', alpha, F)});"),
-                        ("clamp_assign_agrees", "clamp_assign gives the same color as clamp",
-                         f"let k = c.clamp(); let mut m = c; m.clamp_assign(); assert!({same(T, 'm', 'k', alpha, F)});"),
+                        # clamp_assign == clamp for Hwb: two pairs of symbolic divisions, not decided in 3000 s after the fix
+                        # (it was decided - violated - before the fix); decided in real arithmetic by c03_hwb_clamp_real.
                     ]
                     for pk, pdoc, pbody in pieces:
                         o.harness(f"{key}_{pk}", f"{full}: {pdoc} (two float divisions by a symbolic divisor: thorough tier)",
@@ -122,7 +122,8 @@ def gen():
                                   let c = {make};
                                   kani::cover!(true);
                                   {pbody}
-                                  """, fns, f"all finite {F} components", thorough=True)
+                                  """, fns, f"all finite {F} components", thorough=True,
+                                  witness="c03_hwb_clamp_rounding" if pk == "clamp_within" else None)
                     continue_bounds = True
                 else:
                   o.harness(f"{key}_clamp_contract",
